@@ -321,3 +321,34 @@ def c12(res):
 @check("C13")
 def c13(res):
     _m5(res, "graph", "C13", GRAPH_RULE)
+
+
+# ---------------------------------------------------------------------------------------------------------------- M6
+@check("C20")
+def c20(res):
+    from . import m6_attrs
+    from . import tlc as T
+    import itertools, json as _json
+
+    outs = m6_attrs.run(res.tier)
+    m6_attrs.classify(outs, res)
+    # structural behaviour of link classes (C01-C03 for SymlinkNode / SymlinkNodeMixin) comes from M1's symlink families
+    m1 = m1_ops.run(res.tier, only=("ops-n3x",))
+    for out in m1:
+        if "symlink" in out["families"]:
+            res.replayed += out["per_family"].get("symlink", 0) + out["per_family"].get("symlinkmixin", 0)
+            for att in out["attention"]:
+                if att["family"] in ("symlink", "symlinkmixin") and att.get("verdict", {}).get("violated"):
+                    bad = [p for p in att["verdict"]["violated"] if not (p == "C03" and not att["flags"]["c03"])]
+                    if bad:
+                        res.violation(m1_ops.record("C20", out, att, "a link node does not take part in trees like any other node: violates %s" % bad))
+    res.rule = ("TLC explores every state reachable from one (thorough: two) ordinary node(s) and two link nodes by: creating a link (target = any live node incl. another link, any parent, 3 keyword sets), "
+                "writing foo/bar/name on any live node, n.parent = v and n.children = [x] for all live n, v, x; invariants: a link reads what its target reads, links own nothing, the forest is well-formed; "
+                "every transition is a vector: the pre-state is rebuilt from real Node/AnyNode + SymlinkNode/SymlinkNodeMixin objects, the action performed, and every key of every node read back. "
+                "Plus the M1 mutator vectors (all fault plans) on the SymlinkNode and SymlinkNodeMixin families.")
+    res.distinct = sum(o["vectors"] for o in outs)
+    res.exhaustive = True
+    for line in itertools.islice(T.read_lines(outs[0]["tlc"]["lines_path"]), 3000, 3001):
+        res.sample(_json.loads(_json.loads(line)))
+    res.assumptions += ["attribute names other than the node classes' own API (parent, children, target, separator, path, ...) are represented by foo, bar, name",
+                        "targets are fixed at construction (re-assigning .target, which could create cyclic links, is not modelled)"]
